@@ -623,6 +623,35 @@ pub fn c04_hands(rng: &mut Rng, thorough: bool) -> Vec<(String, Vec<u32>)> {
     out
 }
 
+/// hands for the sorting property: all arrangements (n <= 4) / multisets over a small alphabet, seeded words
+pub fn c11_hands(rng: &mut Rng, thorough: bool) -> Vec<Vec<u32>> {
+    let deck = layout_deck();
+    let alpha = [deck[0], deck[13], deck[51], 0, deck[5] | (1 << 31), u32::MAX, 1];
+    let mut out = Vec::new();
+    fn go(n: usize, cur: &mut Vec<u32>, alpha: &[u32], start: usize, ordered: bool, out: &mut Vec<Vec<u32>>) {
+        if cur.len() == n { out.push(cur.clone()); return; }
+        for k in (if ordered { 0 } else { start })..alpha.len() {
+            cur.push(alpha[k]);
+            go(n, cur, alpha, k, ordered, out);
+            cur.pop();
+        }
+    }
+    for n in 2..=7usize {
+        go(n, &mut Vec::new(), &alpha, 0, n <= 4, &mut out);
+        // every multiset in a seeded arrangement as well
+        if n > 4 {
+            let mut ms = Vec::new();
+            go(n, &mut Vec::new(), &alpha, 0, false, &mut ms);
+            for mut h in ms { rng.shuffle(&mut h); out.push(h); }
+        }
+        for _ in 0..(if thorough { 100_000 } else { 8_000 }) {
+            let h: Vec<u32> = (0..n).map(|_| match rng.below(3) { 0 => rng.next() as u32, 1 => deck[rng.below(52) as usize], _ => rng.below(4) as u32 }).collect();
+            out.push(h);
+        }
+    }
+    out
+}
+
 /// keys for the product search: small keys, every table key and its neighbours, powers of two, seeded
 fn find_keys(rng: &mut Rng, seeded: usize) -> Vec<u64> {
     let mut keys: Vec<u64> = (0..4100).collect();
@@ -714,6 +743,11 @@ pub fn cases(prop: &str, thorough: bool, seed: u64, c: &mut Cases) {
             }
         }
         "C02" | "C03" | "C09" => cases_sixseven(c, &mut rng, thorough),
+        "C11" => {
+            for h in c11_hands(&mut rng, thorough) {
+                c.emit(&format!("sort{}", h.len()), &format!("sort {}", join(&h)));
+            }
+        }
         "C08" => {
             let sym = deck_blank();
             for w in sym {
@@ -932,6 +966,7 @@ pub fn sweep(prop: &str, thorough: bool, seed: u64) -> Sweep {
         "C13" => sweep_c13(seed, thorough),
         "C05" => sweep_c05(seed, thorough),
         "C06" => sweep_c06(),
+        "C11" => sweep_c11(seed, thorough),
         "C08" => sweep_c08(seed, thorough),
         "C04" => sweep_c04(seed, thorough),
         "C02" | "C03" | "C09" => sweep_sixseven(prop, seed, thorough),
@@ -2136,5 +2171,37 @@ fn sweep_c08(seed: u64, thorough: bool) -> Sweep {
     s.nontrivial = s.evaluations;
     s.rule = "52 cards + blank: the cycle and four-shift identity; sizes 2..7: container shift against slot-wise shift; every five-card hand under the three non-trivial shifts (all 24 suit relabellings in thorough); seeded six/seven-card hands under the three shifts".into();
     s.sample(format!("AS.shift_suit() = {}", deck[0].shift_suit()));
+    s
+}
+
+/// C11: card order against (rank, suit); sort output checked directly.
+fn sweep_c11(seed: u64, thorough: bool) -> Sweep {
+    let mut s = Sweep::default();
+    for r in 0u32..13 { for su in 0u32..4 { for r2 in 0u32..13 { for su2 in 0u32..4 {
+        s.evaluations += 1;
+        s.nontrivial += 1;
+        let (a, b) = (layout_word(r, su), layout_word(r2, su2));
+        let named = named_cards();
+        // use the crate's own constants for the comparison (they are the layout words by C10)
+        let (ca, cb) = (named[((3 - su) * 13 + (12 - r)) as usize].1, named[((3 - su2) * 13 + (12 - r2)) as usize].1);
+        if (ca < cb) != ((r, su) < (r2, su2)) || ca == 0 || (a < b) != (ca < cb) {
+            s.fail("numeric card order is not rank-then-suit", &format!("{ca} {cb}"), &format!("{}", (r, su) < (r2, su2)), &format!("{}", ca < cb));
+        }
+    } } } }
+    let mut rng = Rng::new(seed ^ 0xC11);
+    for h in c11_hands(&mut rng, thorough) {
+        s.evaluations += 1;
+        let hh = H::mk(&h).unwrap();
+        let Some((a, b)) = guarded(|| (hh.sorted(), hh.sorted_in_place())) else { s.fail("sort panics", &join(&h), "returns", "panic"); continue; };
+        let mut want = h.clone();
+        want.sort_unstable_by(|x, y| y.cmp(x));
+        let again = guarded(|| H::mk(&a).unwrap().sorted());
+        if want.windows(2).any(|p| p[0] != p[1]) { s.nontrivial += 1; }
+        if a != want || b != want || again != Some(a.clone()) || hh.vec() != h {
+            s.fail("sort is not the non-increasing rearrangement (sort, sort_in_place, sort twice, input untouched)", &join(&h), &join(&want), &format!("{} | {} | {:?}", join(&a), join(&b), again));
+        }
+    }
+    s.rule = "all 52 x 52 card pairs for the numeric order; for sizes 2..7 all arrangements (n <= 4) or all multisets in canonical and a seeded arrangement over {3 cards, blank, a flagged card, 0xFFFFFFFF, 1} plus seeded arbitrary-word hands: output must be the same multiset, non-increasing, idempotent, copy and in-place forms equal; non-trivial = not all slots equal".into();
+    s.sample(format!("Five[2C AS 0 KS 2C].sort() = {:?}", H::mk(&[layout_word(0, 0), layout_word(12, 3), 0, layout_word(11, 3), layout_word(0, 0)]).unwrap().sorted()));
     s
 }
